@@ -399,6 +399,14 @@ def run(ctx):
     distinct = set()
     if ok:
         eng = Engine(ctx, pool, repo)
+        # which form of _mod_register is this? (F17-PERS repaired = personality test before the duplicate
+        # handling: the loadable lower-priority module survives whatever the order)
+        probe = planned_cases(eng)[2]
+        eng.margs = ["model"]
+        if ("m25.so", True) in eng.observe(eng.run(probe))["listed"]:
+            eng.margs = ["model", "persfirst"]
+            ctx.log("_mod_register tests the personality first (F17-PERS repaired): model runs as `persfirst`")
+        dist["variant"] = " ".join(eng.margs)
         cases = [(c, "planned") for c in planned_cases(eng)]
         n = 2200 if ctx.quick() else 20000
         cases += [(gen_case(rng, eng), "random") for _ in range(n)]
@@ -489,8 +497,8 @@ def check_cases(ctx, eng, cases, cov, dist, distinct, rng):
         recs.append((c, origin, o1, o2, order2, uses))
     text = "".join(eng.case_line(c, use=list(u.keys())) + "\n" for c, _, _, _, _, u in recs)
     text2 = "".join(eng.case_line(c, order=o2l) + "\n" for c, _, _, _, o2l, _ in recs)
-    mlines = ctx.model("mod", text, args=["model"])
-    mlines2 = ctx.model("mod", text2, args=["model"])
+    mlines = ctx.model("mod", text, args=eng.margs)
+    mlines2 = ctx.model("mod", text2, args=eng.margs)
     stext = "".join(eng.case_line(c, use=list(u.keys())) + obs_tokens(o1, u) + "\n" for c, _, o1, _, _, u in recs)
     slines = ctx.model("mod", stext, args=["spec"])
     stext2 = "".join(eng.case_line(c, order=o2l) + obs_tokens(o2, {}) + "\n" for c, _, _, o2, o2l, _ in recs)
@@ -508,6 +516,8 @@ def check_cases(ctx, eng, cases, cov, dist, distinct, rng):
             dist["forced"] += 1
         if c["pers"] == PCP:
             dist["pcp"] += 1
+        if origin == "matrix":
+            dist["perm_matrix"] += 1
         if any(k.startswith(eng.pool.dir + "/") or k.startswith(eng.builtin + "/") for k in c["statmap"]):
             dist["insecure_file"] += 1
         if any(not (k.startswith(eng.pool.dir + "/") or k.startswith(eng.builtin + "/")) and k != eng.exe
@@ -596,7 +606,7 @@ def exhaustive_orders(ctx, eng, cov, dist, rng):
             elif canon != first[0]:
                 ctx.offender(order_dep_signature(eng, c), "outcome depends on the enumeration order: %s vs %s" % (
                     first[1], list(order)), {"case": c, "order1": first[1], "order2": list(order), "observed2": o})
-    ml = ctx.model("mod", "".join(l + "\n" for l in lines), args=["model"])
+    ml = ctx.model("mod", "".join(l + "\n" for l in lines), args=eng.margs)
     for (c, o), l in zip(obs, ml):
         m = parse_model(l)
         diff = [k for k in ("fatal", "listed", "calls", "opened") if o[k] != m[k]]
